@@ -388,7 +388,7 @@ def lean_expr(t) -> str:  # noqa: PLR0911
     if k == "node":
         return f"(.node {lean_str(t[1])} [{', '.join(map(lean_expr, t[2]))}] [{', '.join(map(lean_attr, t[3]))}])"
     if k == "psum":
-        bs = ", ".join(f"({lean_sym(s)}, [{', '.join(lean_q(p, q) for p, q in vals)}])" for s, vals in t[2])
+        bs = ", ".join(f"({lean_sym(s)}, [{', '.join(lean_expr(v) for v in vals)}])" for s, vals in t[2])
         return f"(.psum {lean_expr(t[1])} [{bs}])"
     raise ValueError(t)
 
@@ -612,6 +612,127 @@ class Pools:
         return next(e for e in self.entries if e.cls.__name__ == short)
 
 
+# --------------------------------------------------------------------------- substitution keys that are TERMS
+#
+# `subs`/`xreplace` are not only called with plain symbols: the library's own momentum "symbols" are ArraySymbols
+# (`create_four_momentum_symbol`; `free_symbols` holds only the inner name Symbol), and users replace applied
+# functions, indexed symbols, folded sub-expressions and compound sub-expressions.
+
+
+SCALAR_FIELD_BLACKLIST = {"momentum", "array", "vector", "n_events", "shape", "ones", "zeros", "angular_momentum", "l"}
+
+
+def reserved():
+    """Reserved building blocks of term keys: they occur in an instance ONLY where the generator put them."""
+    import sympy as sp
+
+    from ampform.kinematics.lorentz import FourMomentumSymbol
+
+    return {"H": sp.Function("H"), "c": sp.Symbol("c"), "A": sp.IndexedBase("B"),
+            "q": [FourMomentumSymbol(f"q{i}", shape=[]) for i in (1, 2)],
+            "u": sp.Symbol("u", positive=True), "u2": sp.Symbol("u2", positive=True)}
+
+
+def keyed_instance_of(pools: Pools, entry: ClassEntry, rng, depth=1):
+    """An instance of a table class whose scalar arguments contain an applied function `H(x, y)`, an indexed symbol
+    `B[1]` and the compound sub-expression `c**2` (momentum arguments are ArraySymbols anyway)."""
+    rs = reserved()
+    x, y = pools.scalars[0], pools.scalars[2]
+    extras = [lambda a: a + rs["H"](x, y), lambda a: a * rs["c"] ** 2, lambda a: a + rs["A"][1]]
+    args = []
+    k = 0
+    for f in entry.sympy_fields:
+        a = pools.arg_for(f.name, rng, depth)
+        if f.name.lower() not in SCALAR_FIELD_BLACKLIST and getattr(a, "is_number", False) is False and k < len(extras) \
+                and not a.has(__import__("sympy").tensor.array.expressions.ArraySymbol):
+            a = extras[k](a)
+            k += 1
+        args.append(a)
+    return entry.build(*args, attrs=pools.attrs_for(entry, rng))
+
+
+def wrapped(pools: Pools, entry: ClassEntry, r, rng) -> list:
+    """The instance inside every array/sum helper class of the package (symbolic containers: whatever the helper
+    means numerically, `subs`/`xreplace`/`doit` must pass through it). Returns (label, object) pairs."""
+    import sympy as sp
+
+    from ampform.sympy import PoolSum
+    from ampform.sympy._array_expressions import ArrayAxisSum, ArrayMultiplication, ArraySlice, ArraySum, MatrixMultiplication
+    from ampform.sympy.math import ComplexSqrt
+
+    rs = reserved()
+    i = sp.Symbol("i")
+    x, y = pools.scalars[0], pools.scalars[2]
+    p = rng.choice(pools.momenta)
+    scalar = pools.is_scalar_class(entry)
+    cands = [
+        ("PoolSum(instance)", lambda: PoolSum(r, (i, (1, 2)))),
+        ("PoolSum(index * instance + H(x, y))", lambda: PoolSum(i * r + rs["H"](x, y), (i, (1, sp.Rational(1, 2), 3)))),
+        ("PoolSum with a symbolic pool holding the keys", lambda: PoolSum(i * r, (i, (rs["H"](x, y), rs["c"] ** 2, 1)))),
+        ("nested PoolSum", lambda: PoolSum(PoolSum(r * sp.Symbol("j"), (sp.Symbol("j"), (i, 2))), (i, (1, 2)))),
+        ("ArraySum(instance, p)", lambda: ArraySum(r, p)),
+        ("ArrayAxisSum(instance)", lambda: ArrayAxisSum(r, axis=1)),
+        ("ArrayMultiplication(BoostZMatrix, instance)", lambda: ArrayMultiplication(pools.entry("BoostZMatrix").build(x, y), r)),
+        ("MatrixMultiplication(instance, RotationZMatrix)", lambda: MatrixMultiplication(r, pools.entry("RotationZMatrix").build(y, x))),
+        ("ArraySlice(instance)", lambda: ArraySlice(r, (slice(None), rng.randint(0, 3)))),
+    ]
+    if scalar:
+        cands.append(("ComplexSqrt(instance)", lambda: ComplexSqrt(r + 1)))
+    out = []
+    for label, mk in cands:
+        try:
+            out.append((label, mk()))
+        except Exception:  # noqa: BLE001, S112  (a helper that rejects this argument kind at construction)
+            continue
+    return out
+
+
+def term_key_requests(r, rng, pools: Pools, oracle: bool = False) -> list[dict]:
+    """Substitution requests whose KEYS are sub-terms of `r` that are not plain symbols.
+    kind: array-symbol / applied-function / indexed / nested-instance / compound.
+    `modelled_subs`: SymPy's `subs` is structural for this key kind (modelled by `substT`); compound keys
+    (Pow/Add/Mul) are matched algebraically by SymPy: `subs` is oracle-only there, `xreplace` is structural for all."""
+    import sympy as sp
+    from sympy.core.function import AppliedUndef
+    from sympy.tensor.array.expressions import ArraySymbol
+
+    from ampform.sympy._array_expressions import ArraySum
+
+    rs = reserved()
+    subs_ = [t for t in sp.preorder_traversal(r)][1:]
+    reqs = []
+    arrs = sorted({t for t in subs_ if isinstance(t, ArraySymbol)}, key=str)
+    if arrs:
+        p = rng.choice(arrs)
+        reqs.append({"kind": "array-symbol->array-symbol", "pairs": [(p, rs["q"][0])], "modelled_subs": True})
+        reqs.append({"kind": "array-symbol->ArraySum", "pairs": [(p, ArraySum(*rs["q"]))], "modelled_subs": True})
+        if len(arrs) > 1:
+            reqs.append({"kind": "two array-symbols", "pairs": [(arrs[0], rs["q"][1]), (arrs[1], ArraySum(rs["q"][0], arrs[0]))],
+                         "modelled_subs": True, "xreplace_only": True})
+    fns = sorted({t for t in subs_ if isinstance(t, AppliedUndef)}, key=str)
+    if fns:
+        t = rng.choice(fns)
+        reqs.append({"kind": "applied-function", "pairs": [(t, rs["u"] if oracle else rng.choice([rs["u"], sp.Rational(3, 2), pools.scalars[4] + 1]))],
+                     "modelled_subs": True})
+    idxs = sorted({t for t in subs_ if isinstance(t, sp.Indexed)}, key=str)
+    if idxs:
+        reqs.append({"kind": "indexed", "pairs": [(rng.choice(idxs), rs["u2"])], "modelled_subs": True})
+    if not oracle:
+        nodes = sorted({t for t in subs_ if m1.is_unevaluated_class(type(t))}, key=str)
+        if nodes:
+            t = rng.choice(nodes)
+            new = rs["q"][0] if t.has(ArraySymbol) else rs["u"]
+            reqs.append({"kind": "nested-instance", "pairs": [(t, new)], "modelled_subs": True})
+    comp = sorted({t for t in subs_ if isinstance(t, sp.Pow) and t.base == rs["c"]}, key=str)
+    if comp:
+        reqs.append({"kind": "compound c**2", "pairs": [(comp[0], rs["u2"])], "modelled_subs": False})
+    elif not oracle:
+        comp = sorted({t for t in subs_ if isinstance(t, (sp.Pow, sp.Add, sp.Mul)) and t.free_symbols and not t.has(ArraySymbol)}, key=str)
+        if comp:
+            reqs.append({"kind": "compound", "pairs": [(rng.choice(comp), rs["u2"])], "modelled_subs": False})
+    return reqs
+
+
 def has_unpicklable_attr(expr) -> bool:
     """Does the term hold a closure/lambda as non-SymPy attribute (Python cannot pickle those)?"""
     import sympy as sp
@@ -668,6 +789,10 @@ def pairs_str(pairs, ctx) -> str:
     return " ".join(f"({m1.show_sym(m1.canon(k, ctx))} {m1.show(m1.canon(v, ctx))})" for k, v in pairs)
 
 
+def term_pairs_str(pairs, ctx) -> str:
+    return " ".join(f"({m1.show(m1.canon(k, ctx))} {m1.show(m1.canon(v, ctx))})" for k, v in pairs)
+
+
 def variants_for_eq(entry: ClassEntry, pools: Pools, rng, r):
     """Instances to compare `r` with: an equal copy, one argument changed, attributes changed
     (incl. the `_get_hashable_object` corner None vs "builtins.NoneType")."""
@@ -722,6 +847,46 @@ def correspondence(chk: common.Check, rng, n_per_class: int, entries, helpers, c
             subjects.append((None, obj))
             stats["helper_instances"] += 1
     bad: list[dict] = []
+    # ---- substitution keys that are TERMS (array symbols, applied functions, indexed symbols, folded sub-instances,
+    # compound sub-expressions) on an instance of every table class and on that instance inside every helper class
+    keyed = []
+    for k_, entry in enumerate(entries):
+        try:
+            r = keyed_instance_of(pools, entry, rng, 1)
+        except Exception:  # noqa: BLE001  (e.g. a class whose __new__ rejects the decorated argument)
+            stats["keyed_instance_failed"] = stats.get("keyed_instance_failed", 0) + 1
+            continue
+        keyed.append((entry.key, "instance", r))
+        ws = wrapped(pools, entry, r, rng)
+        for label, w in (ws if n_per_class > 2 else rng.sample(ws, min(2, len(ws)))):
+            keyed.append((entry.key, label, w))
+    stats["term_key_subjects"] = len(keyed)
+    stats["term_key_kinds"] = {}
+    for key, label, r in keyed:
+        try:
+            c = m1.canon(r, ctx)
+            s = m1.show(c)
+            if m1.to_sympy(c, ctx) != r:
+                msg = "converter round trip"
+                raise m1.Unrepresentable(msg)
+        except m1.Unrepresentable as e:
+            stats["unrepresentable"] += 1
+            bad.append({"op": "convert", "expr": str(r), "why": f"real object outside the model's term language: {e}"})
+            continue
+        except Exception:  # noqa: BLE001  (rebuilding a helper with unorderable function attributes etc.)
+            stats["term_key_subject_not_rebuildable"] = stats.get("term_key_subject_not_rebuildable", 0) + 1
+            continue
+        for req in term_key_requests(r, rng, pools):
+            kind = req["kind"]
+            stats["term_key_kinds"][kind] = stats["term_key_kinds"].get(kind, 0) + 1
+            tp = term_pairs_str(req["pairs"], ctx)
+            sigma = dict(req["pairs"])
+            add(f"(xreplacet {s} {tp})", op="xreplace", key=key + " / " + label, real=_try(lambda r=r, sigma=sigma: r.xreplace(sigma)),
+                expr=r, sigma=sigma, term_key=kind)
+            if req["modelled_subs"] and not req.get("xreplace_only"):
+                seq = list(req["pairs"])
+                add(f"(substt {s} {tp})", op="subs", key=key + " / " + label, real=_try(lambda r=r, seq=seq: r.subs(seq)),
+                    expr=r, sigma=sigma, term_key=kind)
     for entry, r in subjects:
         stats["instances"] += 1
         try:
@@ -797,6 +962,8 @@ def correspondence(chk: common.Check, rng, n_per_class: int, entries, helpers, c
         rec = {"op": op, "class": kw["key"], "expr": str(r)[:400], "srepr": __import__("sympy").srepr(r)[:1500]}
         if "sigma" in kw:
             rec["map"] = {str(k): str(v) for k, v in kw["sigma"].items()}
+        if "term_key" in kw:
+            rec["substitution_key_kind"] = kw["term_key"]
         if "n_given" in kw:
             rec["positional_values_given"] = kw["n_given"]
         line = line.strip()
